@@ -182,6 +182,23 @@ theorem suse_table_checked :
     suseRows.length = 2 ∧ tableOk JoinMatchers.suse suseRows = true ∧ noCross JoinMatchers.suse suseRows = true := by
   decide +kernel
 
+def isDist : ScanOut → Bool
+  | .dist _ => true
+  | _ => false
+
+/-- Ubuntu images WITHOUT `etc/lsb-release` (only os-release): the releases
+    whose os-release carries `VERSION_CODENAME` (16.04 and later) are
+    identified and join as above; for 12.04 … 15.10 the scanner reports no
+    distribution at all (os-release has no codename key there).  The official
+    images ship lsb-release, which `ubuntu_table_checked` covers; this is the
+    exact extent of the os-release-only fallback. -/
+theorem ubuntu_without_lsb_release_partial :
+    tableOk JoinMatchers.ubuntu (ubuntuOsrRows.filter fun r => isDist r.scan) = true ∧
+    (ubuntuOsrRows.filter fun r => !isDist r.scan).map (·.rel) =
+      [[49, 50, 46, 48, 52], [49, 50, 46, 49, 48], [49, 51, 46, 48, 52], [49, 51, 46, 49, 48],
+       [49, 52, 46, 48, 52], [49, 52, 46, 49, 48], [49, 53, 46, 48, 52], [49, 53, 46, 49, 48]] := by
+  decide +kernel
+
 /-- The release tables and the matcher each belongs to. -/
 def ecosystems : List (MatcherT × List Row) := [
   (JoinMatchers.alpine, alpineRows), (JoinMatchers.alpine, alpineIssueRows),
@@ -548,10 +565,6 @@ theorem default_matchers_cover_npm_counterexample :
   decide +kernel
 
 /-! ## the hypotheses are satisfiable -/
-
-def isDist : ScanOut → Bool
-  | .dist _ => true
-  | _ => false
 
 /-- The tables are not empty and contain what one expects: Alpine 3.18,
     Debian 12, Ubuntu 22.04 each have a row whose scanner result is a
